@@ -216,7 +216,9 @@ def invert(it, v):
 def wrap(v):
     """Vec results of numpy operations become fresh arrays."""
     if isinstance(v, Vec):
-        return Arr.new(v)
+        a = Arr.new(v)
+        a.col2d = getattr(v, "col2d", False)
+        return a
     return v
 
 
@@ -360,8 +362,8 @@ def getitem(it, base, idx, frame, node):
                 return Arr.new(Vec(for_len, lambda i: bv.f(it.path.index_term(iv.f(i), bv.n)), bv.kind))
             raise Unsupported("index array kind")
         if isinstance(idx, tuple):
-            if len(idx) == 2 and isinstance(idx[0], slice) and idx[1] is None:
-                return Opaque("2d-view", base)
+            if len(idx) == 2 and isinstance(idx[0], slice) and idx[0] == slice(None, None, None) and idx[1] is None and not base.col2d:
+                return Arr(base.cell, base.lo, base.n, col2d=True)  # v[:, np.newaxis]
             raise Unsupported("multi-dim index")
         i = idx
         if isinstance(i, int) and i < 0:
@@ -1047,11 +1049,11 @@ def arr_attr(it, a: Arr, name):
     from .interp import PyFunc
 
     if name == "shape":
-        return (a.n,)
+        return (a.n, 1) if a.col2d else (a.n,)
     if name == "size":
         return a.n
     if name == "ndim":
-        return 1
+        return 2 if a.col2d else 1
     if name == "dtype":
         return Opaque("dtype:" + {"float": "float64", "int": "int64", "bool": "bool"}[a.dtype])
     if name == "flags":
@@ -1421,6 +1423,7 @@ def install(it):
     reg("numpy.ldexp", np_ldexp)
     reg("numpy.frexp", np_frexp)
     reg("numpy.where", np_where)
+    reg("numpy.atleast_2d", np_atleast_2d)
     reg("numpy.atleast_1d", lambda it_, a: a if isinstance(a, Arr) else Arr.new(Vec(1, lambda i: lift(a, "real"), "real")))
     reg("numpy.vstack", lambda it_, a: Opaque("vstack", a))
     reg("numpy.hstack", lambda it_, a: Opaque("hstack", a))
@@ -1510,6 +1513,21 @@ def np_array(it, v, dtype=None):
     if isinstance(v, (Arr,)):
         return Arr.new(v.vec())
     raise Unsupported("np.array")
+
+
+def np_atleast_2d(it, v):
+    if isinstance(v, Mat):
+        return v
+    if isinstance(v, Arr):
+        if v.col2d:
+            return v
+        if isinstance(v.n, int) and v.n == 1:
+            return Arr(v.cell, v.lo, v.n, col2d=True)  # (1,) -> (1, 1)
+        vec = v.vec()
+        m = Mat(1, v.n, lambda i, j: vec.f(j), name=it.path.fresh_name("row"))
+        m.dense = True
+        return m
+    raise Unsupported("atleast_2d")
 
 
 def np_asarray(it, v, dtype=None):
